@@ -44,6 +44,7 @@ from workflows.workflow import Workflow
 
 from .._store.abstract_workflow_store import (
     AbstractWorkflowStore,
+    HandlerQuery,
     PersistentHandler,
     Status,
 )
@@ -177,6 +178,7 @@ class ServerRuntimeDecorator(BaseRuntimeDecorator):
         self._store: AbstractWorkflowStore = store
         self._registered_workflows: dict[str, Workflow] = {}
         self._initial_state: dict[str, Any] = {}
+        self._run_watchers: set[asyncio.Task[None]] = set()
         self._persistence_backoff = (
             list(persistence_backoff) if persistence_backoff is not None else [0.5, 3]
         )
@@ -257,7 +259,7 @@ class ServerRuntimeDecorator(BaseRuntimeDecorator):
             store_type = serialized_state.get("store_type")
             if store_type is not None and store_type != "in_memory":
                 passthrough_state = None
-        return super().run_workflow(
+        adapter = super().run_workflow(
             run_id,
             workflow,
             init_state,
@@ -265,6 +267,42 @@ class ServerRuntimeDecorator(BaseRuntimeDecorator):
             serialized_state=passthrough_state,
             serializer=serializer,
         )
+        self._watch_run(run_id, adapter)
+        return adapter
+
+    def _watch_run(self, run_id: str, adapter: ExternalRunAdapter) -> None:
+        """Record a run that dies without a terminal event as failed.
+
+        Handler status normally follows the terminal event the run publishes. An
+        engine-side failure (e.g. a tick that cannot be persisted) ends the run
+        with an exception and no such event, which would leave the handler
+        "running" for ever.
+        """
+
+        async def watch() -> None:
+            try:
+                # shield: cancelling the watcher must not cancel the run it observes
+                await asyncio.shield(adapter.get_result())
+            except asyncio.CancelledError:
+                return  # released from memory, aborted, or the server is stopping
+            except Exception as e:
+                try:
+                    found = await self._store.query(HandlerQuery(run_id_in=[run_id]))
+                    if found and found[0].status == "running":
+                        await self._handle_status_update(
+                            run_id=run_id, status="failed", error=str(e)
+                        )
+                except Exception:
+                    logger.error(
+                        "Failed to record the failure of run %s", run_id, exc_info=True
+                    )
+
+        try:
+            task = asyncio.get_running_loop().create_task(watch())
+        except RuntimeError:
+            return  # no running loop: nothing to watch from
+        self._run_watchers.add(task)
+        task.add_done_callback(self._run_watchers.discard)
 
     def get_internal_adapter(self, workflow: Workflow) -> InternalRunAdapter:
         """Wraps the inner runtime's adapter in _ServerInternalRunAdapter."""
